@@ -34,6 +34,7 @@
 // completions of user requests, 3 = `now`.  Within one (time, stream) the arrival order is kept.
 //   conn <t> | closed <t> <reason>
 //   rx <t> <from>                       a fragment is handed to the connected master (stream 0)
+//   op <t> <op ...>                     a user / demand / add_poll / enable / disable / reconnect op is issued (stream 0)
 //   tx <t> <hex>                        fragment written
 //   txlink <t> <assoc>                  REQUEST_LINK_STATUS (the mock transport writes nothing; seen
 //                                       through the tracing event of MasterSession::run_link_status_task)
@@ -658,6 +659,14 @@ pub(crate) async fn run_msched(script: &Script, obs: &mut Vec<String>) {
     let mut users = Vec::new();
     for op in &script.ops {
         heartbeat();
+        if matches!(
+            op[0].as_str(),
+            "user" | "demand" | "add_poll" | "enable" | "disable" | "reconnect"
+        ) {
+            // marks, among the callbacks of the master task, the point at which the op is issued
+            let text = op.join(" ");
+            shared.push(0, |t| format!("op {} {}", t, text));
+        }
         match op[0].as_str() {
             "rx" => {
                 let from: u16 = op[1].parse().unwrap();
